@@ -67,7 +67,7 @@ CHECKS.update({
         technique="exhaustive exploration of consumer call histories over a generated document family on the real NsReader against a reference scope-chain model",
     ),
     "C12": dict(
-        text="for every well-formed token document (<=6/7 tokens over 11 tokens incl. look-alike end tags inside comment/CDATA, blank before '>', nested same names) and every truncation of it at every byte, for EVERY start tag and each of 16 trimming/expansion configurations, the reader is advanced to the Start and read_to_end / read_text / read_to_end_into (piece 1,2,whole) / read_to_end_into_async (piece 1, whole, thorough: every single Pending placement) is called; span, read_text text, all following events+positions versus an uninterrupted run, and Config before/after are compared with the token structure; unclosed input must give Err with the configuration restored",
+        text="for every well-formed token document (<=6/7 tokens over 11 tokens incl. look-alike end tags inside comment/CDATA, blank before '>', nested same names) and every truncation of it at every byte, for EVERY start tag and each of 32 trimming / expansion / end-name trimming / end-name checking configurations, the reader is advanced to the Start and read_to_end / read_text / read_to_end_into (piece 1,2,whole) / read_to_end_into_async (piece 1, whole, thorough: every single Pending placement) is called; span, read_text text, all following events+positions versus an uninterrupted run, and Config before/after are compared with the token structure; unclosed input must give Err with the configuration restored",
         note="names a/b only; with trim_markup_names_in_closing_tags off, documents containing `</a >` are skipped",
         technique="exhaustive enumeration of documents x start events x configurations x source schedules on the real readers against a token-structure oracle",
     ),
@@ -83,7 +83,7 @@ CHECKS.update({
 
 CHECKS.update({
     "C09": dict(
-        text="(a) every sequence of <=4/5 event specifications from a 31-item pool covering all ten event kinds with hostile payloads, built through the public constructors, written and read back; (b) every string <=5/6 over 11 markup-heavy characters as attribute value, text, CDATA (splitting constructor) and comment payload; (c) the BytesStart edit machine: every sequence of <=5/6 operations (set_name, push/extend/clear/with_attributes, to_owned/borrow/into_owned) checked against a (name, attrs) model after every step; (d) ElementWriter call sequences x finishers x indent settings; (e) the async writer over a scripted AsyncWrite with every placement of <=2/3 Pending / short-write deviations must produce the sync writer's bytes",
+        text="(a) every sequence of <=4/5 event specifications from a 32-item pool covering all ten event kinds with hostile payloads, built through the public constructors, written and read back; (b) every string <=5/6 over 11 markup-heavy characters as attribute value, text, CDATA (splitting constructor) and comment payload; (c) the BytesStart edit machine: every sequence of <=5/6 operations (set_name, push/extend/clear/with_attributes, to_owned/borrow/into_owned) checked against a (name, attrs) model after every step; (d) ElementWriter call sequences x finishers x indent settings; (e) the async writer over a scripted AsyncWrite with every placement of <=2/3 Pending / short-write deviations must produce the sync writer's bytes",
         note="constructor preconditions honoured (XML names, no `?>` in PI content, no double quote in Decl arguments, balanced DOCTYPE body); payload pool is fixed",
         technique="exhaustive enumeration of event/builder-call sequences and write schedules on the real Writer/Reader against a canonical-event model",
     ),
